@@ -152,7 +152,14 @@ def _key_shape(key, fi=None):
 
 def _table(fi: FuncInfo, name: str, ctx=None, depth=0):
     """Accumulation table: (source query, increment text, index attr)."""
-    if ctx is not None and depth < 2:
+    if ctx is not None and depth < 4:
+        # a plain alias of another local table
+        for n in own_nodes(fi.node):
+            if isinstance(n, (ast.Assign, ast.AnnAssign)) and n.value is not None and isinstance(n.value, ast.Name):
+                tg = n.targets[0] if isinstance(n, ast.Assign) else n.target
+                if isinstance(tg, ast.Name) and tg.id == name and n.value.id != name:
+                    return _table(fi, n.value.id, ctx, depth + 1)
+    if ctx is not None and depth < 4:
         for n in own_nodes(fi.node):
             if isinstance(n, ast.Assign) and isinstance(n.targets[0], ast.Name) and n.targets[0].id == name and isinstance(n.value, ast.Call):
                 ts, _ = ctx.res.callees(fi, n.value, fi.cls)
@@ -203,6 +210,10 @@ def criterion(ctx, member: str, fi: FuncInfo):
         )
         return
     sel = _selection(fi)
+    if sel is None:
+        # the selection may sit in a private helper shared by several rules
+        fi = ctx.norm.flat(fi)
+        sel = _selection(fi)
     if sel is None:
         raise AnalysisError(f"{fi.qualname}: selection idiom not recognised")
     direction, key, coll, node = sel
@@ -583,6 +594,22 @@ def registries(ctx):
     return rules
 
 
+def _own_container(ctx, cls, attr) -> bool:
+    """Every value the class assigns to ``self.<attr>`` is a container it
+    creates itself ({} / [] / set() / dict() ...)."""
+    from ..lifecycle import Lifecycle
+
+    srcs = [v for _f, v in Lifecycle(ctx).attr_sources(cls, attr) if v is not None]
+    if not srcs:
+        return False
+    for v in srcs:
+        fresh = isinstance(v, (ast.Dict, ast.List, ast.Set)) and not getattr(v, "keys", None) and not getattr(v, "elts", None)
+        fresh = fresh or (isinstance(v, ast.Call) and isinstance(v.func, ast.Name) and v.func.id in ("dict", "list", "set", "defaultdict", "OrderedDict") and not v.args)
+        if not fresh:
+            return False
+    return True
+
+
 def purity(ctx):
     """R04.g - rules, scoring functions and scorer objects do not mutate the
     dispatcher, the instance or any observer (they may rebind their own
@@ -605,6 +632,13 @@ def purity(ctx):
             obj = w.obj
             # rebinding an attribute of the callable object itself is its own state
             if isinstance(obj, ast.Name) and w.fi.cls is not None and w.fi.params and obj.id == w.fi.params[0] and w.fi.cls is fi.cls:
+                continue
+            # filling a container the callable object created for itself
+            # (self._memo = {} ... self._memo[k] = v) is its own state as well
+            if (
+                isinstance(obj, ast.Attribute) and isinstance(obj.value, ast.Name) and w.fi.cls is not None and w.fi.params
+                and obj.value.id == w.fi.params[0] and w.fi.cls is fi.cls and _own_container(ctx, fi.cls, obj.attr)
+            ):
                 continue
             shared = [o for o in w.origins if is_shared(o) and o[0] not in ("unknown", "global")]
             if not shared:
@@ -646,7 +680,12 @@ def run(ctx):
         if f.parent is outer and not isinstance(f.node, ast.Lambda):
             provenance(ctx, f)
             sel = _selection(f)
-            if sel is None or sel[0] != "max" or _key_shape(sel[1]) is None or _key_shape(sel[1])[2]:
+            if sel is None:
+                f = ctx.norm.flat(f)  # the arg-max may live in a shared private helper
+                sel = _selection(f)
+            if sel is None:
+                raise AnalysisError(f"{f.qualname}: selection idiom not recognised")
+            if sel[0] != "max" or _key_shape(sel[1], f) is None or _key_shape(sel[1], f)[2]:
                 chk.violation("R04.b", f, sel[3] if sel else None, "score_based_rule does not select the highest score")
             else:
                 chk.ok("R04.b", f.qualname, f.loc(), "argmax of scores[job_id]")
